@@ -220,7 +220,7 @@ impl Property for C01 {
 
     fn cases(&self, tier: Tier) -> u64 {
         match tier {
-            Tier::Quick => 40_000,
+            Tier::Quick => 120_000,
             Tier::Thorough => 1_500_000,
         }
     }
@@ -230,7 +230,7 @@ impl Property for C01 {
     }
 
     fn label_floors(&self) -> Vec<(&'static str, f64)> {
-        vec![("timestamp-column", 0.1), ("array-column", 0.1), ("split-pattern", 0.1), ("mutated-line", 0.2)]
+        vec![("timestamp-column", 0.1), ("array-column", 0.1), ("split-pattern", 0.1), ("mutated-line", 0.1)]
     }
 
     fn generate(&self, t: &mut Tape, ctx: &Ctx) -> Case {
